@@ -11,6 +11,10 @@ case "$WT" in /repo*|/verif*) echo "worktree must be outside /repo and /verif"; 
 git -C "$WT" checkout -- . || exit 2
 git -C "$WT" clean -fdq -e target || exit 2
 L=/tmp/seedcheck2.$$.log
+# whatever ends this script (normal exit, error, INT/TERM/HUP), /repo's working tree is restored:
+# a seeded change must never stay applied to /repo
+trap 'git -C /repo checkout -- . ; rm -f $L' EXIT
+trap 'exit 130' INT TERM HUP
 echo "== demo on clean tree"; (cd "$WT" && bash "$D/demo.sh" "$WT" >$L 2>&1); RC1=$?; echo "   exit $RC1 (want 0)"; [ $RC1 -ne 0 ] && tail -15 $L
 echo "== apply patch"; git -C "$WT" apply "$D/patch.diff" || { echo "   PATCH DOES NOT APPLY"; exit 1; }
 echo "== test suite with the change"; (cd "$WT" && CARGO_BUILD_JOBS=8 cargo nextest run --workspace --no-fail-fast --offline 2>&1 | grep -E "Summary|FAIL" | head -5)
